@@ -544,7 +544,7 @@ fn state_case(rng: &mut Rng, rep: &mut Report) {
 }
 
 pub fn run(tier: Tier, seed: u64) -> MonOut {
-    let n = tier.n(20_000, 1_000_000);
+    let n = tier.n(400_000, 15_000_000);
     let rep = par_cases(seed, n, |i, rng, rep| {
         if i % 2 == 0 {
             map_case(rng, rep)
